@@ -10,6 +10,44 @@ from .state import PyList, PyDict, PySet
 from .lib import _U, _out, _raise, GenV, _num, as_seq, _items_of
 
 
+def fresh_counter():
+    """current value of the global fresh-name counter (names created later carry a larger suffix)"""
+    n = ty.fresh_name("mark")
+    return int(n.rsplit("!", 1)[1])
+
+
+def lift_fork(st, sk, n_pc, n0, i, terms, rng, pattern=None, guards=()):
+    """A body (key function, comprehension element) was executed once in the fork `sk` on the Skolem index `i`.  Constants created during
+    that execution (callee results, witnesses) depend on i: they are replaced by fresh functions of i, the facts the fork assumed about them
+    are assumed in `st` for all i, and `terms` are returned with the same replacement."""
+    import re
+    extra = list(sk.pc[n_pc:])
+    consts, seen, stack = {}, set(), [t for t in list(extra) + list(terms) if isinstance(t, z3.ExprRef)]
+    while stack:
+        t = stack.pop()
+        if t.get_id() in seen:
+            continue
+        seen.add(t.get_id())
+        if z3.is_quantifier(t):
+            stack.append(t.body())
+        elif z3.is_app(t):
+            if t.num_args() == 0 and t.decl().kind() == z3.Z3_OP_UNINTERPRETED and not t.eq(i):
+                m = re.search(r"!(\d+)", t.decl().name())
+                if m and int(m.group(1)) >= n0:
+                    consts[t.get_id()] = t
+            stack.extend(t.children())
+    subs = [(c, z3.Function(c.decl().name() + "@i", z3.IntSort(), c.sort())(i)) for c in consts.values()]
+    sub = (lambda t: z3.substitute(t, *subs)) if subs else (lambda t: t)
+    if extra:
+        # (range of the Skolem index and the branch / filter conditions of this fork) => everything else the fork assumed
+        body = z3.Implies(z3.And(rng, *[sub(g) for g in guards]), z3.And(*[sub(x) for x in extra]))
+        import os
+        if os.environ.get("PYVC_DEBUG"):
+            print("LIFT", i, "consts", [str(c) for c in consts.values()], "\n   ", body)
+        st.assume(ty.FA([i], body, patterns=[pattern] if pattern is not None else None))
+    return [sub(t) if isinstance(t, z3.ExprRef) else t for t in terms]
+
+
 def comprehension(ex, st, e, kind):
     from .symex import Out
     gens = e.generators
@@ -103,9 +141,12 @@ def _symbolic_comp(ex, st, e, kind, g, it):
     from .state import Frame
     seq = as_seq(ex, st, it, e)
     i = z3.Int(ty.fresh_name("ci"))
+    n0 = fresh_counter()
     s1 = st.fork()
     s1.frames.append(Frame({}, parent=len(s1.frames) - 1, fi=s1.frame.fi, label="<comp>"))
     s1.frame.env["__class__"] = s1.frames[-2].env.get("__class__")
+    n_pc0 = len(s1.pc)
+    nd0 = len(s1.decisions)
     s1.assume(z3.And(i >= 0, i < seq.len))
     npc = len(s1.pc)
     heap0 = dict(s1.heap)
@@ -125,7 +166,9 @@ def _symbolic_comp(ex, st, e, kind, g, it):
         disj = []
         for o in oc:
             pcond = z3.And(*o.st.decisions[nd:]) if len(o.st.decisions) > nd else z3.BoolVal(True)
-            disj.append(z3.And(pcond, ty.to_bool(ex.truth(o.val, o.st, cnd))))
+            (d_,) = lift_fork(st, o.st, n_pc0, n0, i, [z3.And(pcond, ty.to_bool(ex.truth(o.val, o.st, cnd)))], z3.And(i >= 0, i < seq.len),
+                              guards=list(o.st.decisions[nd0:]) + [cond])
+            disj.append(d_)
         cond = z3.And(cond, z3.Or(*disj) if len(disj) > 1 else disj[0])
     if kind == "dict":
         raise _U("dict comprehension over a symbolic sequence", e)
@@ -153,10 +196,15 @@ def _symbolic_comp(ex, st, e, kind, g, it):
         else:
             raise _U(f"comprehension body yields values of different sorts: {ts}", e)
     # a body that forks (conditional expression) is merged: value = ite(path condition 1, v1, ite(..))
-    comps = ty.pack(t, vals[-1])
-    for o, v in list(zip(ov, vals))[:-1][::-1]:
+    packed = []
+    for o, v in zip(ov, vals):
         pcond = z3.And(*o.st.decisions[npc1:]) if len(o.st.decisions) > npc1 else z3.BoolVal(True)
-        comps = [z3.If(pcond, c1, c2) for c1, c2 in zip(ty.pack(t, v), comps)]
+        lifted = lift_fork(st, o.st, n_pc0, n0, i, [pcond] + list(ty.pack(t, v)), z3.And(i >= 0, i < seq.len),
+                           guards=list(o.st.decisions[nd0:]) + [cond])
+        packed.append((lifted[0], lifted[1:]))
+    comps = packed[-1][1]
+    for pcond, cs in packed[:-1][::-1]:
+        comps = [z3.If(pcond, c1, c2) for c1, c2 in zip(cs, comps)]
     val = ty.unpack(t, comps)
     if not g.ifs:
         arrs = [z3.Lambda([i], c) for c in comps]
@@ -286,9 +334,64 @@ def minmax_key(ex, st, args, kwargs, node, is_min):
     return res
 
 
+SORTP = z3.Function("sort_perm", z3.ArraySort(z3.IntSort(), ty.RefSort), z3.IntSort(), z3.IntSort())       # position in result -> position in input
+SORTQ = z3.Function("sort_perm_inv", z3.ArraySort(z3.IntSort(), ty.RefSort), z3.IntSort(), z3.IntSort())   # position in input -> position in result
+
+
+def permutation_facts(ra, rlen, ea, elen):
+    """`ra[0:rlen]` is a rearrangement of `ea[0:elen]` (explicit index maps, keyed on the result array)"""
+    j, i = z3.Int(ty.fresh_name("pj")), z3.Int(ty.fresh_name("pi"))
+    P, Q = (lambda x: SORTP(ra, x)), (lambda x: SORTQ(ra, x))
+    return [rlen == elen,
+            ty.FA([j], z3.Implies(z3.And(j >= 0, j < rlen), z3.And(P(j) >= 0, P(j) < elen, z3.Select(ra, j) == z3.Select(ea, P(j)), Q(P(j)) == j)),
+                  patterns=[z3.Select(ra, j)]),
+            ty.FA([i], z3.Implies(z3.And(i >= 0, i < elen), z3.And(Q(i) >= 0, Q(i) < rlen, P(Q(i)) == i, z3.Select(ra, Q(i)) == z3.Select(ea, i))),
+                  patterns=[Q(i), z3.Select(ea, i)])]
+
+
+def sorted_by_key(ex, st, v, key, reverse, node):
+    """sorted(seq_of_objects, key=f[, reverse=True]) (A-LIB): a rearrangement of the input whose keys are non-decreasing (non-increasing with
+    reverse); equal keys keep their input order (stability).  The key function is executed once on a Skolem element."""
+    if not (isinstance(v, ty.SeqV) and isinstance(v.elem, ty.RefT)):
+        raise _U(f"sorted(key=...) of {v!r}", node)
+    ra = z3.Const(ty.fresh_name("sorted"), v.arrs[0].sort())
+    r = ty.SeqV(v.elem, [ra], v.len)
+    for f in permutation_facts(ra, r.len, v.arrs[0], v.len):
+        st.assume(f)
+    i = z3.Int(ty.fresh_name("si"))
+    n0 = fresh_counter()
+    sk = st.fork()
+    n_pc = len(sk.pc)
+    sk.assume(z3.And(i >= 0, i < r.len))
+    elem = r.at(i)
+    ex.assume_wf(sk, v.elem, elem)
+    # the Skolem element is one of the input's elements: whatever is known about all of them is known about it
+    ko = ex.call_value(key, [elem], {}, sk, node)
+    if len(ko) != 1 or ko[0].kind != "val":
+        raise _U("sort key forks or raises on a symbolic element", node)
+    kt = ty.to_z3num(_num(ex, st, ko[0].val, node))
+    (kt,) = lift_fork(st, sk, n_pc, n0, i, [kt], z3.And(i >= 0, i < r.len), pattern=z3.Select(ra, i))
+    j = z3.Int(ty.fresh_name("sj"))
+    kj = z3.substitute(kt, (i, j))
+    rng = z3.And(i >= 0, i < j, j < r.len)
+    st.assume(ty.FA([i, j], z3.Implies(rng, (kt >= kj) if reverse else (kt <= kj)),
+                    patterns=[z3.MultiPattern(z3.Select(ra, i), z3.Select(ra, j))]))
+    st.assume(ty.FA([i, j], z3.Implies(z3.And(rng, kt == kj), SORTP(ra, i) < SORTP(ra, j)),
+                    patterns=[z3.MultiPattern(z3.Select(ra, i), z3.Select(ra, j))]))
+    st.ghost.setdefault("__sorted__", PyList()).items.append((r, kt, i))
+    return r
+
+
 def sorted_(ex, st, args, kwargs, node):
     v = args[0]
     from .lib import SymSet
+    if isinstance(v, GenV) and v.seq is not None:
+        v = v.seq
+    if "key" in kwargs and isinstance(v, ty.SeqV):
+        rev = kwargs.get("reverse", False)
+        if not isinstance(rev, bool):
+            raise _U("sorted with symbolic reverse", node)
+        return _out(sorted_by_key(ex, st, v, kwargs["key"], rev, node), st)
     if isinstance(v, SymSet) and set(kwargs) <= {"reverse"}:
         return _out(sorted_set(ex, st, v, node, bool(kwargs.get("reverse", False))), st)
     items = _items_of(ex, st, v, node)
